@@ -41,6 +41,7 @@ type c20Frame struct {
 	Error    *string        `json:"error,omitempty"`
 	Input    hexutil.Bytes  `json:"input"`
 	Calls    []*c20Frame    `json:"calls,omitempty"`
+	Type     string         `json:"type,omitempty"` // as the callTracer reports it: CALL, DELEGATECALL, STATICCALL, CALLCODE, CREATE, CREATE2
 	claim    *c20Claim
 	reverted bool
 }
@@ -158,6 +159,11 @@ func (g *c20Gen) frame(depth int, root bool) *c20Frame {
 		f.To = c20Bridge
 		f.claim = g.claim()
 		f.Input = c20Pack(f.claim)
+		f.Type = choose.Pick(g.ch, []string{"", "CALL", "CALL"}, "bridgeFrameType")
+	} else {
+		// intermediate frames can be of any kind: a claim made through a proxy-based account runs below a DELEGATECALL, a
+		// contract created in the transaction can claim from its constructor
+		f.Type = choose.Pick(g.ch, []string{"", "CALL", "CALL", "DELEGATECALL", "CALLCODE", "CREATE", "CREATE2"}, "frameType")
 	}
 	revertP := 2
 	if root {
